@@ -97,8 +97,11 @@ pub struct Msg {
     pub ttl: u8,
     /// connection tag (0 = plain connection)
     pub via: u16,
-    /// vector clock (empty unless the bench enables it)
+    /// vector clock (empty unless the bench enables it): what the sender knew
+    /// to be *completed* when it started this send (Appendix B)
     pub vc: Vec<u32>,
+    /// sending model (u16::MAX = driver / scheduler)
+    pub from: u16,
     pub tok: Option<Token>,
 }
 
@@ -110,6 +113,7 @@ impl Msg {
             ttl,
             via: 0,
             vc: Vec::new(),
+            from: u16::MAX,
             tok: None,
         }
     }
@@ -297,6 +301,8 @@ pub enum Rec {
         thread: u64,
         name: String,
         vc: Vec<u32>,
+        #[serde(default)]
+        from: u16,
     },
     Op {
         stamp: u64,
@@ -429,6 +435,7 @@ impl Node {
             thread: thread_id(),
             name: cx.name().to_string(),
             vc: m.vc.clone(),
+            from: m.from,
         });
     }
 
@@ -445,8 +452,11 @@ impl Node {
         let id = child_id(parent.id, self.idx, op_idx, now);
         let mut vc = Vec::new();
         if self.shared.vclock {
-            self.vc[self.idx as usize + 1] += 1;
+            // The message carries what was completed *before* this operation;
+            // the operation's own tick becomes visible to later operations only
+            // (they start after this one has completed).
             vc = self.vc.clone();
+            self.vc[self.idx as usize + 1] += 1;
         }
         Msg {
             id,
@@ -454,6 +464,7 @@ impl Node {
             ttl: parent.ttl.saturating_sub(1),
             via: 0,
             vc,
+            from: self.idx,
             tok: if self.shared.use_tokens {
                 Some(Token::new(&self.shared.tokens))
             } else {
